@@ -22,11 +22,13 @@ package main
 // Output of dec: "err" | "ok id=<ID> hdr=<MarshalHeader> body=<MarshalBody>".
 
 import (
+	"bufio"
 	"bytes"
 	"encoding/hex"
 	"fmt"
 	"io"
 	"os"
+	"strconv"
 	"strings"
 	"time"
 
@@ -735,6 +737,23 @@ func c08ShortNDList() []byte {
 	return append([]byte{0xc0 + byte(len(ntds))}, ntds...)
 }
 
+// registerBytes: whatever header / body the bytes contain (byte-level mutations can shift item
+// boundaries): tell the model what the components answer for those field values too
+func (c *c08GenCtx) registerBytes(bs []byte) {
+	c08Safe(func() {
+		var hf block.V2HeaderFormat
+		rest, err := codec.BC.UnmarshalFromBytes(bs, &hf)
+		if err != nil {
+			return
+		}
+		var bf block.V2BodyFormat
+		if _, err = codec.BC.UnmarshalFromBytes(rest, &bf); err != nil {
+			return
+		}
+		c.register(&c08Cand{h: hf, b: bf})
+	})
+}
+
 func c08Gen(g *Gen) {
 	c := &c08GenCtx{g: g, n: c08GetNode(g.Bytes(32)), seen: map[string]bool{}}
 	c.buildChain()
@@ -743,20 +762,7 @@ func c08Gen(g *Gen) {
 		return
 	}
 	emit := func(bs []byte, tag string) {
-		// whatever header / body the bytes contain (byte-level mutations can shift item
-		// boundaries): tell the model what the components answer for those field values too
-		c08Safe(func() {
-			var hf block.V2HeaderFormat
-			rest, err := codec.BC.UnmarshalFromBytes(bs, &hf)
-			if err != nil {
-				return
-			}
-			var bf block.V2BodyFormat
-			if _, err = codec.BC.UnmarshalFromBytes(rest, &bf); err != nil {
-				return
-			}
-			c.register(&c08Cand{h: hf, b: bf})
-		})
+		c.registerBytes(bs)
 		if tag != "" {
 			g.Emit("dec %s %s", hx(bs), tag)
 		} else {
@@ -888,6 +894,38 @@ func c08Gen(g *Gen) {
 			}
 			c.register(cd)
 			emit(cd.encode(), "")
+		case k < 88: // several blocks back to back in one reader, possibly after consumed bytes
+			var all []byte
+			var lens []string
+			skip := 0
+			if g.Intn(2) == 0 {
+				skip = 1 + g.Intn(40)
+				all = g.Bytes(skip)
+			}
+			cnt := 1 + g.Intn(4)
+			for j := 0; j < cnt; j++ {
+				pb := c.pickBlock()
+				pc := &c08Cand{h: *pb.hf, b: *pb.bf}
+				pc.b.PatchTransactions = c08CloneBss(pc.b.PatchTransactions)
+				pc.b.NormalTransactions = c08CloneBss(pc.b.NormalTransactions)
+				if g.Intn(5) == 0 {
+					c.mutate(pc)
+				}
+				c.register(pc)
+				enc := pc.encode()
+				c.registerBytes(enc)
+				all = append(all, enc...)
+				lens = append(lens, strconv.Itoa(len(enc)))
+			}
+			if g.Intn(6) == 0 {
+				all = append(all, g.Bytes(1+g.Intn(5))...) // trailing bytes after the last block
+			}
+			mode := []string{"seek", "seek", "bufio", "plain"}[g.Intn(4)]
+			n := cnt + g.Intn(2)
+			if mode == "plain" {
+				n = 1
+			}
+			g.Emit("decs %s %d %d %s %s", mode, skip, n, hx(all), strings.Join(lens, ","))
 		case k < 92: // random bytes
 			n := g.Pick(0, 1, 2, 3, 10, 40, 100)
 			bs := g.Bytes(n)
@@ -947,6 +985,11 @@ func (c08Runner) Step(t []string, o *Oracle) string {
 	switch t[0] {
 	case "tx", "txl", "votes", "digest", "result", "prop", "bloom":
 		return "ok"
+	case "decs":
+		if len(t) != 6 {
+			return "bad-op"
+		}
+		return c08Decs(t[1], t[2], t[3], unhx(t[4]), t[5], o)
 	case "dec":
 		if len(t) < 2 || len(t) > 3 {
 			return "bad-op"
@@ -954,6 +997,110 @@ func (c08Runner) Step(t []string, o *Oracle) string {
 		return c08Dec(unhx(t[1]), len(t) == 3 && t[2] == "swap", o)
 	}
 	return "bad-op"
+}
+
+// c08Plain hides Seek/Peek: a reader that can only be read
+type c08Plain struct{ r io.Reader }
+
+func (p c08Plain) Read(b []byte) (int, error) { return p.r.Read(b) }
+
+// c08Decs: the input holds several marshalled blocks back to back (LENS = their lengths), possibly
+// after K bytes that the caller has consumed already. Decode up to N blocks from ONE reader.
+// Oracle: the i-th block decoded from the stream is the block written at that position (same id as
+// decoding that piece alone from a fresh reader) and the reader then stands at the end of that piece.
+func c08Decs(mode, kS, nS string, in []byte, lensS string, o *Oracle) (out string) {
+	var k, n int
+	if _, err := fmt.Sscanf(kS, "%d", &k); err != nil || k < 0 || k > len(in) {
+		return "bad-op"
+	}
+	if _, err := fmt.Sscanf(nS, "%d", &n); err != nil || n < 1 || n > 16 {
+		return "bad-op"
+	}
+	if mode == "plain" && n != 1 {
+		return "bad-op"
+	}
+	var lens []int
+	for _, x := range strings.Split(lensS, ",") {
+		var l int
+		if _, err := fmt.Sscanf(x, "%d", &l); err != nil {
+			return "bad-op"
+		}
+		lens = append(lens, l)
+	}
+	nd := c08GetNode(nil)
+	bdf, err := block.NewBlockDataFactory(nd.nd.Chain, nil)
+	if err != nil {
+		return "harness-error"
+	}
+	defer func() {
+		if e := recover(); e != nil {
+			o.Check(false, "decoder-panic", "NewBlockDataFromReader panicked: %v", e)
+			out = "panic"
+		}
+	}()
+	base := bytes.NewReader(in)
+	var rd io.Reader
+	var pos func() int
+	switch mode {
+	case "seek":
+		rd = base
+		pos = func() int { return len(in) - base.Len() }
+	case "bufio":
+		br := bufio.NewReaderSize(c08Plain{base}, 64)
+		rd = br
+		pos = func() int { return len(in) - base.Len() - br.Buffered() }
+	case "plain":
+		rd = c08Plain{base}
+	default:
+		return "bad-op"
+	}
+	// the caller consumes the first K bytes itself
+	if _, err := io.CopyN(io.Discard, rd, int64(k)); err != nil {
+		return "harness-error:skip"
+	}
+	o.Count("decs-" + mode)
+	var res []string
+	off := k
+	for i := 0; i < n; i++ {
+		var bd module.BlockData
+		var derr error
+		c08Watch("NewBlockDataFromReader", in, func() {
+			c08Quiet(func() { bd, derr = bdf.NewBlockDataFromReader(rd) })
+		})
+		// reference: the piece written at this position, decoded alone from a fresh reader
+		var ref module.BlockData
+		var rerr error = io.EOF
+		if i < len(lens) && off+lens[i] <= len(in) {
+			c08Quiet(func() { ref, rerr = bdf.NewBlockDataFromReader(bytes.NewReader(in[off : off+lens[i]])) })
+		}
+		if i < len(lens) {
+			o.Check((derr == nil) == (rerr == nil), "stream-decode-differs-from-piece",
+				"block #%d of the stream (offset %d): stream decode err=%v, the piece alone err=%v", i, off, derr, rerr)
+		}
+		if derr != nil {
+			res = append(res, "err")
+			break
+		}
+		if ref != nil {
+			o.Check(bytes.Equal(bd.ID(), ref.ID()) && bd.Height() == ref.Height(), "stream-decode-wrong-block",
+				"block #%d decoded from the stream at offset %d has id %x height %d, the block written there has id %x height %d",
+				i, off, bd.ID(), bd.Height(), ref.ID(), ref.Height())
+			if i > 0 || k > 0 {
+				o.Count("decs-ok-at-offset>0")
+			}
+		}
+		if i < len(lens) {
+			off += lens[i]
+		}
+		if pos != nil {
+			o.Check(pos() == off || i >= len(lens), "stream-decode-wrong-position",
+				"after block #%d the reader stands at %d, the block ends at %d", i, pos(), off)
+			res = append(res, fmt.Sprintf("ok id=%s pos=%d", hex.EncodeToString(bd.ID()), pos()))
+		} else {
+			res = append(res, fmt.Sprintf("ok id=%s", hex.EncodeToString(bd.ID())))
+		}
+	}
+	return strings.Join(res, ";")
 }
 
 func c08Dec(in []byte, swap bool, o *Oracle) (out string) {
